@@ -3630,7 +3630,8 @@ class ProgramRunner:
 
     # ---- provenance of block tables, directed chains
     def tag_result(self, slot, opname, o, src):
-        if opname in PERMUTING_OPS or o['op'] in PERMUTING_OPS or (self.ext and getattr(OPS[o['op']], 'chain', False)):
+        if opname in PERMUTING_OPS or o['op'] in PERMUTING_OPS or (self.ext and (getattr(OPS[o['op']], 'chain', False) or o['op'] == 'construct' or
+                                                                                opname in ('storage.pickle', 'storage.deepcopy', 'storage.astype', 'storage.copy_default'))):
             slot.perm = opname
         elif o['op'] in TABLE_KEEPING_OPS and opname != 'storage.isort_qdata':
             slot.perm = src.perm if src is not None else None
